@@ -117,6 +117,16 @@ def c10_build_multi(valid, vecs, r, new_id):
     return c.line(new_id)
 
 
+def c10_plan_request(valid, unit, v, r):
+    """model-driver request for the SPEC's plan script of this (base, unit, vector, r) — see props/families/valve.py;
+    theorems C10_unreal2_query_* (Props/C10_unreal2_whole.lean)"""
+    import re
+    m = re.fullmatch(r"u(\d+)_(\d+)", valid.id)
+    if not m:
+        return None
+    return f"unreal2plan {m.group(1)} {m.group(2)} {r} {unit} {v}"
+
+
 def c10_attempts(valid, unit, sends, clean):
     """attempts of `unit` seen on the wire; sends = [(conn, port, hex, failed)]"""
     return sum(1 for (_, _, data, _) in sends if data[8:10] == KIND[unit])
